@@ -110,13 +110,37 @@ const (
 
 type world struct {
 	dev      bool
-	synced   string         // configured key value the key model was derived from
-	keys     map[string]tok // configured, unexpired keys
+	synced   string               // configured key value the key model was derived from
+	keys     map[string]tok       // configured keys that were unexpired when they were imported
+	keyExp   map[string]time.Time // expiry of those keys that have one
 	sessions map[string]*modelSession
+
+	ops       []jop    // what the harness did to / asked of this world (hang_test.go)
+	sessNames []string // session cookie values in the order of their creation
+	notes     []string // credential history worth telling when a later call hangs
+
+	expiring        []time.Time // expiry times of the keys configured with setKeysExpiring
+	expiredShown    int         // requests that presented an expired key that is still loaded (no import since)
+	importsSinceExp int         // key imports / configuration changes since the expiry
 }
 
 func newWorld() *world {
-	return &world{keys: map[string]tok{}, sessions: map[string]*modelSession{}}
+	return &world{keys: map[string]tok{}, keyExp: map[string]time.Time{}, sessions: map[string]*modelSession{}}
+}
+
+// expiryMargin: a key is taken as certainly valid / certainly expired only this
+// far away from its expiry; in between both answers are accepted.
+const expiryMargin = 80 * time.Millisecond
+
+// keyState: 1 certainly valid, -1 certainly expired, 0 too close to tell.
+func keyState(exp, now time.Time) int {
+	switch d := exp.Sub(now); {
+	case d > expiryMargin:
+		return 1
+	case d < -expiryMargin:
+		return -1
+	}
+	return 0
 }
 
 // parseKeyEntries is the harness' reading of the documented key format
@@ -124,7 +148,13 @@ func newWorld() *world {
 // anyone|user|admin and may be omitted. Entries that are malformed or already
 // expired configure nothing.
 func parseKeyEntries(entries []string, now time.Time) map[string]tok {
+	out, _ := parseKeyEntriesExp(entries, now)
+	return out
+}
+
+func parseKeyEntriesExp(entries []string, now time.Time) (map[string]tok, map[string]time.Time) {
 	out := map[string]tok{}
+	exps := map[string]time.Time{}
 	for _, e := range entries {
 		key, rawq, _ := strings.Cut(e, "?")
 		if key == "" {
@@ -148,15 +178,22 @@ func parseKeyEntries(entries []string, now time.Time) map[string]tok {
 		if !ok1 || !ok2 {
 			continue
 		}
+		var exp time.Time
 		if ex := q.Get("expires"); ex != "" {
 			t, err := time.Parse(time.RFC3339, ex)
 			if err != nil || now.After(t) {
 				continue
 			}
+			exp = t
 		}
 		out[key] = tok{rd, wr}
+		if exp.IsZero() {
+			delete(exps, key)
+		} else {
+			exps[key] = exp
+		}
 	}
-	return out
+	return out, exps
 }
 
 func parsePermWord(s string) (int, bool) {
@@ -295,12 +332,21 @@ func (w *world) grants(q reqSpec) []grant {
 	if q.RemoteAddr == bridgeAddr {
 		return []grant{{kind: "token", t: tok{pAdmin, pAdmin}, src: "bridge"}}
 	}
+	var out []grant
 	if key, ok := presentedKey(q.Authz); ok {
 		if t, ok := w.keys[key]; ok {
-			return []grant{{kind: "token", t: t, src: "key"}}
+			st := 1
+			if exp, has := w.keyExp[key]; has {
+				st = keyState(exp, time.Now()) // an expired key grants nothing, loaded or not
+			}
+			switch st {
+			case 1:
+				return []grant{{kind: "token", t: t, src: "key"}}
+			case 0:
+				out = append(out, grant{kind: "token", t: t, src: "key"})
+			}
 		}
 	}
-	var out []grant
 	if sv, ok := presentedSession(q.Cookie); ok {
 		if s, ok := w.sessions[sv]; ok {
 			switch {
